@@ -4544,7 +4544,10 @@ class ParameterizedMetaclass(type):
             type.__setattr__(mcs,attribute_name,value)
 
             if isinstance(value,Parameter):
-                mcs.__param_inheritance(attribute_name,value)
+                # Same as add_parameter: the Parameter has to learn its
+                # name and the cached namespaces have to be rebuilt
+                mcs._initialize_parameter(attribute_name,value)
+                _clear_params_cache(mcs)
 
     def __param_inheritance(mcs, param_name, param):
         """
